@@ -3,5 +3,6 @@ CONSTANTS
   TraceFile = "trace.ndjson"
   ReadGas = 20
   Slack = 2
+  MemSlack = 64
 INVARIANT Report
 CHECK_DEADLOCK FALSE
